@@ -185,6 +185,7 @@ def obligations(S):
             if p.outcome.kind != "ret":
                 add("C04", f"{p.outcome.kind}", z3.BoolVal(False), {"msg": p.outcome.msg})
                 continue
+            add("C04", "path-ends-in-return", z3.BoolVal(True))
             if len(bodies) != 1:
                 add("C13", "body-runs-exactly-once", z3.BoolVal(False))
                 continue
